@@ -26,7 +26,7 @@
   symbolic instance `sym` below (a body is a stack of (key, direction) layers around a message) as witness; the
   driver runs `sym`.
   Not modelled: rendezvous relays and hs_session_keys, test-request and test-response, hidden-service messages,
-  inactivity sweeps and request-cache time-outs other than the explicit `tick`.
+  inactivity sweeps (do_remove); remove_tunnel_delay > 0.
 -/
 namespace Ipv8.C05
 
@@ -131,7 +131,7 @@ def Node.init (i : Nat) : Node := ⟨i, [], [], [], [], [], 0⟩
 
 inductive Out (B : Type) where
   | cell (dst : Nat) (c : Cell B)
-  | destroy (dst signer cid : Nat)
+  | destroy (dst signer cid reason : Nat)
   | exitOut (cid dest tag : Nat)      -- a datagram left through exit socket `cid`
   | rawIn (cid org tag : Nat)         -- on_raw_data(circuit `cid`, origin, data) at the originator
   deriving DecidableEq
@@ -286,6 +286,9 @@ def onCreated (n : Node) (cid ident key authPk dhRef : Nat) (ch : Choice) : Node
     match get n1.exits rq.fromId with
     | none => (n1, [])
     | some e =>
+      if e.hop.peer ≠ rq.peer.peer then (n1, [])      -- the exit entry under this id belongs to somebody else by now
+      else if n1.inUse rq.toId then (n1, [])          -- the id reserved for the next hop was taken meanwhile
+      else
       let k := e.hop.key
       let bw : Relay := ⟨rq.fromId, ⟨rq.peer.peer, rq.peer.addr, k⟩, .bwd, 1⟩
       let fw : Relay := ⟨rq.toId, ⟨rq.toPeer.peer, rq.toPeer.addr, k⟩, .fwd, 1⟩
@@ -427,12 +430,14 @@ def viaRelay (n : Node) (signer cid : Nat) : Option Relay :=
   | none => none
 
 /-- on_destroy (after lazy_wrapper's signature check: `sigok`) and the removals it starts -/
-def onDestroy (n : Node) (signer cid : Nat) (sigok : Bool) : Node × List (Out B) :=
+def onDestroy (n : Node) (signer cid : Nat) (sigok : Bool) (reason : Nat) : Node × List (Out B) :=
   if !sigok then (n, [])
   else
     match viaRelay n signer cid with
     | some nx =>
-      ({ n with relays := del (del n.relays cid) nx.next }, [Out.destroy nx.hop.addr n.self nx.next])
+      -- remove_relay(cid, destroy=payload.reason): reason 0 is falsy, nothing is forwarded then
+      ({ n with relays := del (del n.relays cid) nx.next },
+       if reason = 0 then [] else [Out.destroy nx.hop.addr n.self nx.next reason])
     | none => destroyLocal n signer cid
 
 /-! ### API steps -/
@@ -478,14 +483,14 @@ def apiRemoveCircuit (n : Node) (cid : Nat) : Node × List (Out B) :=
   | some c =>
     ({ n with circuits := del n.circuits cid },
      match c.firstHop with
-     | some fh => [Out.destroy fh.addr n.self cid]
+     | some fh => [Out.destroy fh.addr n.self cid 1]
      | none => [])
   | none => (n, [])
 
 /-- remove_exit_socket(cid, destroy=1) -/
 def apiRemoveExit (n : Node) (cid : Nat) : Node × List (Out B) :=
   match get n.exits cid with
-  | some e => ({ n with exits := del n.exits cid }, [Out.destroy e.hop.addr n.self cid])
+  | some e => ({ n with exits := del n.exits cid }, [Out.destroy e.hop.addr n.self cid 1])
   | none => (n, [])
 
 /-- remove_relay(cid, destroy=1) followed by remove_relay(other, destroy=1) -/
@@ -496,19 +501,48 @@ def apiRemoveRelay (n : Node) (cid : Nat) : Node × List (Out B) :=
     match get n1.relays r.next with
     | some r2 =>
       ({ n1 with relays := del n1.relays r.next },
-       [Out.destroy r.hop.addr n.self r.next, Out.destroy r2.hop.addr n.self r2.next])
-    | none => (n1, [Out.destroy r.hop.addr n.self r.next])
+       [Out.destroy r.hop.addr n.self r.next 1, Out.destroy r2.hop.addr n.self r2.next 1])
+    | none => (n1, [Out.destroy r.hop.addr n.self r.next 1])
   | none => (n, [])
 
-/-- request-cache time-outs of the `created` (60 s) and `create` (10 s) caches -/
-def tick (n : Node) : Node := { n with created := [], creates := [] }
+/-! ### request-cache time-outs.  Every cache entry has its own timer in the code (CreatedRequestCache 60 s from
+    join_circuit, CreateRequestCache 10 s from on_extend, RetryRequestCache 10 s from the CREATE/EXTEND); the model
+    makes no assumption about their relative order: each expiry is an event of its own. -/
+def expireCreated (n : Node) (cid : Nat) : Node := { n with created := n.created.filter (fun c => c != cid) }
+
+def expireCreate (n : Node) (num : Nat) : Node := { n with creates := n.creates.filter (fun r => r.number != num) }
+
+end
+
+section
+variable {B : Type} (A : Aead B)
+
+/-- RetryRequestCache.on_timeout (+ retry_later): without alternatives (or tries) the circuit is removed, otherwise
+    send_initial_create / send_extend is repeated with the next candidate (the pick is an input) -/
+def expireRetry (n : Node) (cid : Nat) (ch : Choice) : Node × List (Out B) :=
+  match get n.circuits cid with
+  | none => (n, [])
+  | some circ =>
+    if circ.retry = 0 then (n, [])
+    else
+      match ch.ext with
+      | none => ({ n with circuits := del n.circuits cid }, [])
+      | some (pk, ident) =>
+        let dh := n.freshKey
+        match circ.hops with
+        | [] =>
+          let circ1 : Circ := { circ with unv := some ⟨pk, pk, dh⟩, retry := ident }
+          sendMsg A { n with circuits := set n.circuits cid circ1, nextKey := n.nextKey + 1 } pk cid (.create ident n.self dh)
+        | fh :: _ =>
+          let circ1 : Circ := { circ with unv := some ⟨pk, 0, dh⟩, retry := ident }
+          sendMsg A { n with circuits := set n.circuits cid circ1, nextKey := n.nextKey + 1 } fh.addr cid (.extend ident pk dh)
 
 end
 
 /-! ### events of one node, as a single step function (used by the invariant theorems) -/
 inductive Ev (B : Type) where
   | cell (src : Nat) (c : Cell B) (ch : Choice)
-  | destroy (signer cid : Nat) (sigok : Bool)
+  | destroy (signer cid : Nat) (sigok : Bool) (reason : Nat)
   | create (cid goal hopPeer hopAddr ident : Nat)
   | sendData (cid dest tag : Nat)
   | tunnelData (cid org tag : Nat)
@@ -517,11 +551,13 @@ inductive Ev (B : Type) where
   | rmExit (cid : Nat)
   | rmRelay (cid : Nat)
   | openStep (cid : Nat)
-  | tick
+  | expireCreated (cid : Nat)
+  | expireCreate (num : Nat)
+  | expireRetry (cid : Nat) (ch : Choice)
 
 def step {B : Type} (A : Aead B) (n : Node) : Ev B → Node × List (Out B)
   | .cell src c ch => processCell A n src c ch
-  | .destroy signer cid ok => onDestroy n signer cid ok
+  | .destroy signer cid ok reason => onDestroy n signer cid ok reason
   | .create cid goal hp ha ident => apiCreate A n cid goal hp ha ident
   | .sendData cid dest tag => apiSendData A n cid dest tag
   | .tunnelData cid org tag => apiTunnelData A n cid org tag
@@ -530,7 +566,9 @@ def step {B : Type} (A : Aead B) (n : Node) : Ev B → Node × List (Out B)
   | .rmExit cid => apiRemoveExit n cid
   | .rmRelay cid => apiRemoveRelay n cid
   | .openStep cid => openStep n cid
-  | .tick => (tick n, [])
+  | .expireCreated cid => (expireCreated n cid, [])
+  | .expireCreate num => (expireCreate n num, [])
+  | .expireRetry cid ch => expireRetry A n cid ch
 
 def run {B : Type} (A : Aead B) (n : Node) : List (Ev B) → Node
   | [] => n
